@@ -58,7 +58,7 @@ pub fn judge(case: &Case) -> Verdict {
         }
         let raw = t.raw.as_ref().unwrap();
         let in_census = jsx_census(&t.input).total;
-        let has_dc_call = resolve_type && case.source.contains("defineComponent(");
+        let has_dc_call = resolve_type && (case.source.contains("defineComponent(") || case.source.contains("(defineComponent)"));
         let in_json = module_json(&t.input);
         let out_json = module_json(raw);
         if in_census == 0 && !has_dc_call {
